@@ -59,11 +59,15 @@ type job struct {
 	Policy      json.RawMessage `json:"policy"`
 	// Prior: the Policy value that is loaded held this other policy first and was compiled and dumped in that state; the
 	// caller then rewrote its exported fields to `Policy`. What is installed must be the policy the value holds at the load.
-	Prior  json.RawMessage `json:"prior,omitempty"`
-	Flags  uint32          `json:"flags"`
-	NNP    bool            `json:"nnp"`
-	Probes []probeJob      `json:"probes"`
-	Shm    string          `json:"shm"`
+	Prior json.RawMessage `json:"prior,omitempty"`
+	// Divergent: another thread of the child carries a private filter (loaded without thread-sync) when the policy is loaded
+	// WITH thread-sync: the kernel attaches nothing, so either LoadFilter reports an error (not judged here) or, if it claims
+	// success, the probes must still see the policy's decisions
+	Divergent bool       `json:"divergent,omitempty"`
+	Flags     uint32     `json:"flags"`
+	NNP       bool       `json:"nnp"`
+	Probes    []probeJob `json:"probes"`
+	Shm       string     `json:"shm"`
 }
 
 // shared page layout (uint32 words):
@@ -147,6 +151,19 @@ func child() {
 		own, _ = bpf.Assemble(insts)
 	}
 	w[5] = uint32(len(own))
+	if j.Divergent {
+		dd := make(chan error)
+		go func() {
+			runtime.LockOSThread()
+			dd <- seccomp.LoadFilter(seccomp.Filter{NoNewPrivs: true, Policy: seccomp.Policy{DefaultAction: seccomp.ActionAllow,
+				Syscalls: []seccomp.SyscallGroup{{Action: seccomp.ActionErrno, Names: []string{probe.Syscalls[len(probe.Syscalls)-1].Name}}}}})
+			select {}
+		}()
+		if err := <-dd; err != nil {
+			fmt.Fprintln(os.Stderr, "divergent load:", err)
+			os.Exit(3)
+		}
+	}
 	seccomp.VerifBeforeInstall = func(prog []syscall.SockFilter, flags seccomp.FilterFlag) {
 		w[2], w[3] = uint32(flags), uint32(len(prog))
 		same := len(prog) == len(own)
@@ -205,10 +222,11 @@ type summary struct {
 	Failures   map[string]int `json:"failures"`
 	Skipped    int            `json:"skipped_children"`
 	// children with a restrictive default action that died before answering all probes (inconclusive, see job.Restrictive)
-	Inconclusive int           `json:"inconclusive_children"`
-	FailedLoads  int           `json:"failed_loads_not_judged"`
-	WithPrior    int           `json:"children_with_a_prior_policy"`
-	Samples      []interface{} `json:"samples"`
+	Inconclusive  int           `json:"inconclusive_children"`
+	FailedLoads   int           `json:"failed_loads_not_judged"`
+	WithPrior     int           `json:"children_with_a_prior_policy"`
+	WithDivergent int           `json:"children_with_a_divergent_thread"`
+	Samples       []interface{} `json:"samples"`
 }
 
 type outcome struct {
@@ -649,6 +667,10 @@ func main() {
 		if prevPJ != nil && rng.Intn(2) == 0 {
 			j.Prior = prevPJ
 			sum.WithPrior++
+		}
+		if fl&1 != 0 && rng.Intn(3) == 0 {
+			j.Divergent = true
+			sum.WithDivergent++
 		}
 		prevPJ = pj
 		works = append(works, work{base, j, -1})
